@@ -175,6 +175,28 @@ fn one(rng: &mut Rng, fmt: &str, out: &mut UnitResult, ctxj: serde_json::Value) 
                 fail(out, format!("c16|{}|metadata_count", fmt), json!({"got": meta.len()}), &$bytes);
                 return;
             }
+            // the same metadata through format auto-detection
+            match guard(|| calamine::open_workbook_auto_from_rs(Cursor::new($bytes.clone())).map(|a| (a.sheet_names(), a.defined_names().to_vec()))) {
+                Ok(Ok((n, d))) => {
+                    if n != want {
+                        fail(out, format!("c16|{}|auto_detected|sheet_names", fmt), json!({"got": n, "want": want}), &$bytes);
+                        return;
+                    }
+                    if d != wb.defined_names().to_vec() {
+                        fail(out, format!("c16|{}|auto_detected|defined_names", fmt), json!({"got": d}), &$bytes);
+                        return;
+                    }
+                    out.feat("auto_detected");
+                }
+                Ok(Err(e)) => {
+                    fail(out, format!("c16|{}|auto_detected|open_error", fmt), json!(format!("{:?}", e)), &$bytes);
+                    return;
+                }
+                Err(f) => {
+                    fail(out, format!("c16|{}|auto_detected|fault:{}", fmt, f.class), json!(f.detail), &$bytes);
+                    return;
+                }
+            }
             let dn = wb.defined_names().to_vec();
             if dn != want_names {
                 let sym = if dn.len() != want_names.len() { "count" } else if dn.iter().zip(want_names.iter()).all(|(a, b)| a.0 == b.0) { "value" } else { "name_or_order" };
@@ -285,7 +307,7 @@ impl Prop for C16 {
         tier.pick(16, 160)
     }
     fn mandatory(&self, _t: Tier) -> Vec<String> {
-        ["fmt:xlsx", "fmt:xlsb", "fmt:xls", "fmt:ods", "kind:Work", "kind:Chart", "kind:Dialog", "kind:Macro", "kind:Vba", "visible:Visible", "visible:Hidden", "visible:VeryHidden", "date1904", "sheets>8", "defined_names:0", "defined_names:1", "defined_names:2", "ods:dde_links", "xlsx:name_in_several_scopes", "xlsb:name_refers_to_earlier_name"]
+        ["fmt:xlsx", "fmt:xlsb", "fmt:xls", "fmt:ods", "kind:Work", "kind:Chart", "kind:Dialog", "kind:Macro", "kind:Vba", "visible:Visible", "visible:Hidden", "visible:VeryHidden", "date1904", "sheets>8", "defined_names:0", "defined_names:1", "defined_names:2", "auto_detected", "ods:dde_links", "xlsx:name_in_several_scopes", "xlsb:name_refers_to_earlier_name"]
             .iter().map(|s| s.to_string()).collect()
     }
     fn run_unit(&self, ctx: &Ctx, unit: u64, out: &mut UnitResult) {
